@@ -845,6 +845,54 @@ def replay_h_row_groups_or3(min0, max0, p0, k, xa, opa, va, pne, vp, blt, vb):
     return _replay_partition([[A, P], [B]], p0, min0, max0, [xa], as_idx=True)
 
 
+OPS3 = ["==", "<", ">="]
+
+
+def h_row_groups_composition(min0: int, max0: int, p0: int, k: int, opa: int, va: int, vp: int,
+                             opb: int, vb: int, vq: int) -> bool:
+    """
+    pre: 0 <= k <= 1 and 0 <= opa < 3 and 0 <= opb < 3 and min0 <= max0
+    post: __return__
+    """
+    # program [[P1, A1], [P2, A2]] - each OR group holds a partition clause and a clause on a column with statistics.
+    # A row group is read exactly when ONE AND THE SAME group passes both first-pass tests (the row-level pass does not
+    # re-check partition clauses, so a group kept because "some group passes the path test and some other group passes
+    # the statistics test" would hand back rows of the wrong partition)
+    rgs = _two_groups(min0, max0, p0, k)
+    g1 = [("p", "==", vp), ("a", OPS3[_pick(opa, 0, 2)], va)]
+    g2 = [("p", "==", vq), ("a", OPS3[_pick(opb, 0, 2)], vb)]
+    pf = _PF(rgs)
+    out = api.filter_row_groups(pf, [g1, g2])
+    want = [rg for rg in rgs if any(not api.filter_out_stats(rg, g, pf.schema) and
+                                    not api.filter_out_cats(rg, g, pf.partition_meta) for g in (g1, g2))]
+    return len(out) == len(want) and all(a is b for a, b in zip(out, want))
+
+
+def replay_h_row_groups_composition(min0, max0, p0, k, opa, va, vp, opb, vb, vq):
+    """real hive dataset (partition p0 holding a in [min0, max0]): rows returned for the OR program"""
+    import tempfile, os, shutil
+    import pandas as pd
+    import fastparquet
+    lo, hi = max(min(min0, 10 ** 6), -10 ** 6), max(min(max0, 10 ** 6), -10 ** 6)
+    d = tempfile.mkdtemp(prefix="c13-")
+    try:
+        dn = os.path.join(d, "ds")
+        df = pd.DataFrame({"a": [lo, hi, lo], "p": [p0, p0, p0 + 1000]})
+        fastparquet.write(dn, df, file_scheme="hive", partition_on=["p"], stats=True)
+        flt = [[("p", "==", vp), ("a", OPS3[opa], va)], [("p", "==", vq), ("a", OPS3[opb], vb)]]
+        pf = fastparquet.ParquetFile(dn)
+        out = pf.to_pandas(filters=flt, row_filter=True)
+        got = sorted((int(a), int(p)) for a, p in zip(out["a"], out["p"]))
+        want = sorted((a, p) for a, p in zip(df["a"], df["p"])
+                      if any(all(row_pred(op, {"a": a, "p": p}[c], v) for c, op, v in g) for g in flt))
+        if got != want:
+            return True, "filters=%r on rows (a, p) = %r returns %r, the rows that satisfy it are %r" % (
+                flt, sorted(zip(df["a"], df["p"])), got, want)
+        return False, "exact"
+    finally:
+        shutil.rmtree(d, ignore_errors=True)
+
+
 # ------------------------------------------------------------------- replay kit --
 def _replay_stats_file(filters, x, vmin, vmax):
     """real API: write a file whose single row group holds x plus rows realising the bounds, read with filters"""
